@@ -26,8 +26,10 @@ class Ctx:
         self.model = {}
         self.workdir = os.path.join(WORK, rep.prop)
 
-    def add(self, cid, ops, **meta):
+    def add(self, cid, ops, model=True, **meta):
+        """model=False: implementation-only case (judged by the property's oracle, not compared with the model)"""
         self.cases.append((cid, ops))
+        meta["_model"] = model
         self.meta[cid] = meta
 
     def case_text(self, cid):
@@ -58,7 +60,8 @@ def execute(ctx, model=True, release=True, simd=False):
         ctx.impl_rel, p2 = core.run_binary_on_cases(core.mzh_path("release", simd), ctx.cases, "rel", ctx.workdir)
         probs += p2
     if model:
-        ctx.model, p3 = core.run_binary_on_cases(os.path.join(core.BUILD, "mzm"), ctx.cases, "mod", ctx.workdir)
+        mcases = [c for c in ctx.cases if ctx.meta.get(c[0], {}).get("_model", True)]
+        ctx.model, p3 = core.run_binary_on_cases(os.path.join(core.BUILD, "mzm"), mcases, "mod", ctx.workdir)
         probs += p3
     for p in probs:
         rep.tie_broken.append("process died: %s" % p)
@@ -517,6 +520,8 @@ def all_checks():
               "C08": ic.check_C08, "C13": ic.check_C13, "C19": ic.check_C19,
               "C01": dc.check_C01, "C02": dc.check_C02, "C10": dc.check_C10, "C11": dc.check_C11, "C12": dc.check_C12,
               "C14": dc.check_C14, "C15": dc.check_C15})
+    from . import misc_checks as mc
+    d.update({"C17": mc.check_C17, "C18": mc.check_C18, "C20": mc.check_C20})
     return d
 
 
